@@ -49,7 +49,14 @@ fn dummy_factory(dir: &Path) -> PipelineFactory {
 	PipelineFactory::default(dir, callback)
 }
 
+/// length of the largest input handed to a decoder in the current case
+static INPUT_LEN: AtomicU64 = AtomicU64::new(0);
+fn note_input(n: usize) {
+	INPUT_LEN.fetch_max(n as u64, Ordering::SeqCst);
+}
+
 fn run_text(rt: &tokio::runtime::Runtime, dir: &Path, dec: &str, bytes: &[u8]) -> (String, String) {
+	note_input(bytes.len());
 	let mut out = "value".to_string();
 	let mut msg = String::new();
 	let mut upd = |r: (&'static str, String)| {
@@ -107,6 +114,8 @@ fn class_value(class: &str, width: usize, file_len: u64, own: u64) -> u64 {
 		"max" => max,
 		"beyond_file" => (file_len + 1000) & max,
 		"huge" => (1u64 << 40) & max | (max >> 1 & 0x7fff_ffff_ffff),
+		// large, but small enough to pass a magnitude sanity check (a count of 2^32 items is "possible")
+		"plausible" => (1u64 << 32).min(max >> 1),
 		"minus_one" => max - 1,
 		"wrong_enum" => 0x99 & max,
 		"self" => own & max,
@@ -520,6 +529,7 @@ fn run_bin(rt: &tokio::runtime::Runtime, dir: &Path, fmt: &str, field: &str, cla
 	match fmt {
 		"versatiles" => {
 			let bytes = corrupt_versatiles(field, class);
+			note_input(bytes.len());
 			// once from memory, once from a file (the file reader has its own range handling)
 			let p = dir.join("c19.versatiles");
 			std::fs::write(&p, &bytes).unwrap();
@@ -530,6 +540,7 @@ fn run_bin(rt: &tokio::runtime::Runtime, dir: &Path, fmt: &str, field: &str, cla
 		}
 		"pmtiles" => {
 			let bytes = corrupt_pmtiles(field, class);
+			note_input(bytes.len());
 			let p = dir.join("c19.pmtiles");
 			std::fs::write(&p, &bytes).unwrap();
 			let a = probe_reader(rt, catch(|| rt.block_on(async { PMTilesReader::open_reader(Box::new(DataReaderBlob::from(bytes))).await.map(|r| r.boxed()) })));
@@ -553,6 +564,7 @@ fn run_bin(rt: &tokio::runtime::Runtime, dir: &Path, fmt: &str, field: &str, cla
 		}
 		"mvt" => {
 			let bytes = corrupt_mvt(field, class);
+			note_input(bytes.len());
 			let o = oc(catch(|| {
 				versatiles_geometry::vector_tile::VectorTile::from_blob(&Blob::from(bytes)).and_then(|t| {
 					for l in &t.layers {
@@ -666,7 +678,7 @@ pub fn child(input: &str, output: &str, start: usize, dir: &str) {
 			let now = std::time::SystemTime::now().duration_since(std::time::UNIX_EPOCH).unwrap().as_millis() as u64;
 			if now - t0 > 15_000 {
 				let mut o = std::fs::OpenOptions::new().append(true).open(&out_path).unwrap();
-				let _ = writeln!(o, "{}", json!({"outcome":"timeout","msg":"no result after 15 s"}));
+				let _ = writeln!(o, "{}", json!({"outcome":"timeout","msg":"no result after 15 s","max_alloc_kib":0,"input_len":0}));
 				std::process::exit(97);
 			}
 		}
@@ -681,9 +693,13 @@ pub fn child(input: &str, output: &str, start: usize, dir: &str) {
 				libc::setrlimit(libc::RLIMIT_AS, &libc::rlimit { rlim_cur: libc::RLIM_INFINITY, rlim_max: libc::RLIM_INFINITY });
 			}
 		}
+		crate::MAX_REQ.store(0, Ordering::SeqCst);
+		INPUT_LEN.store(0, Ordering::SeqCst);
 		let (o, msg) = run_one(&rt, d, case);
 		started.store(0, Ordering::SeqCst);
-		writeln!(out, "{}", json!({"outcome":o,"msg":msg})).unwrap();
+		// largest single allocation request of the case in KiB (0 = none of 1 MiB or more), and the largest input it was fed
+		let max_alloc_kib = (crate::MAX_REQ.load(Ordering::SeqCst) >> 10).min(i32::MAX as usize);
+		writeln!(out, "{}", json!({"outcome":o,"msg":msg,"max_alloc_kib":max_alloc_kib,"input_len":INPUT_LEN.load(Ordering::SeqCst)})).unwrap();
 		out.flush().unwrap();
 		if is_mb {
 			// leaked pool threads stay mapped: continue in a fresh child so that the limit is meaningful again
@@ -722,7 +738,7 @@ pub fn run(input: &str, output: &str, dir: &str) -> Value {
 				Some(c) => format!("exit code {c}"),
 				None => "killed by signal (abort / stack overflow / allocation failure)".to_string(),
 			};
-			writeln!(o, "{}", json!({"outcome":"abort","msg":how})).unwrap();
+			writeln!(o, "{}", json!({"outcome":"abort","msg":how,"max_alloc_kib":0,"input_len":0})).unwrap();
 		}
 		restarts += 1;
 		if restarts > 5000 {
@@ -733,9 +749,9 @@ pub fn run(input: &str, output: &str, dir: &str) -> Value {
 	let mut out = Out::create(output);
 	let mut counts: std::collections::BTreeMap<String, u64> = Default::default();
 	for (i, c) in cases.iter().enumerate() {
-		let r = results.get(i).cloned().unwrap_or(json!({"outcome":"missing","msg":""}));
+		let r = results.get(i).cloned().unwrap_or(json!({"outcome":"missing","msg":"","max_alloc_kib":0,"input_len":0}));
 		*counts.entry(r["outcome"].as_str().unwrap().to_string()).or_default() += 1;
-		let mut ev = json!({"ev":"decode","id":i,"case":c,"outcome":r["outcome"],"msg":r["msg"]});
+		let mut ev = json!({"ev":"decode","id":i,"case":c,"outcome":r["outcome"],"msg":r["msg"],"max_alloc_kib":r["max_alloc_kib"],"input_len":r["input_len"]});
 		if c["k"] == "text" {
 			// keep the event small: bytes stay, as list
 			ev["case"] = c.clone();
